@@ -17,10 +17,18 @@ mod driver {
     }
 
     pub fn parse_frame(case: &Value) -> Value {
-        let protocol = format!("proto-{:016x}", u(case, "msg.protocol"));
+        // abstract string id -> concrete string of the requested length (>= 17) that embeds the id
+        fn mk(id: u64, len: u64) -> String {
+            let mut s = format!("{:016x}", id);
+            while (s.len() as u64) < len {
+                s.push('x');
+            }
+            s
+        }
+        let protocol = mk(u(case, "msg.protocol"), u(case, "msg.protocol.len"));
         let data = format!("data-{:016x}", u(case, "msg.data")).into_bytes();
-        let from = format!("peer-{:016x}", u(case, "msg.from"));
-        let source = format!("peer-{:016x}", u(case, "conn.source"));
+        let from = mk(u(case, "msg.from"), u(case, "msg.from.len"));
+        let source = mk(u(case, "conn.source"), u(case, "conn.source.len"));
         let bytes = if b(case, "decode.ok") {
             let m = WireMessage { protocol: protocol.clone(), data: data.clone(), from: from.clone(), timestamp: u(case, "msg.timestamp") };
             postcard::to_stdvec(&m).unwrap()
